@@ -120,9 +120,20 @@ func (u c09Rule) matches(method, path string) bool {
 	case "prefix":
 		return strings.HasPrefix(path, u.Pattern)
 	case "regex":
-		return regexp.MustCompile(u.Pattern).MatchString(path)
+		return c09Regexp(u.Pattern).MatchString(path)
 	}
 	return false
+}
+
+var c09ReCache sync.Map
+
+func c09Regexp(p string) *regexp.Regexp {
+	if v, ok := c09ReCache.Load(p); ok {
+		return v.(*regexp.Regexp)
+	}
+	re := regexp.MustCompile(p)
+	c09ReCache.Store(p, re)
+	return re
 }
 
 var (
